@@ -139,6 +139,9 @@ EXPLORE = {
                  (8, 38, 3, "asc:36"), (8, 38, 3, "rnd:S:37"), (9, 44, 2, "asc:42"), (16, 160, 1, "asc:150")],
 }
 EXPLORE_MAXSTATES = 400000
+# one larger scope per property in the quick tier, so that the properties together cover the thorough closures
+EXPLORE_QUICK_EXTRA = {"C04": [(4, 12, 0, "-")], "C01": [(5, 11, 0, "-")], "C02": [(6, 12, 0, "-")], "C06": [(7, 12, 0, "-")],
+                       "C11": [(8, 13, 0, "-")], "C05": [(4, 16, 5, "asc:15")], "C10": [(5, 20, 4, "desc:18")], "C03": [(5, 20, 4, "asc:18")]}
 # the same for the pure-Python map (extract/py_driver.ml --explore; minimum occupancy (cap-1)//2, so the
 # shapes differ from the Rust ones); the Python harness is slower, hence the smaller scopes
 EXPLORE_PY = {
@@ -155,7 +158,7 @@ EXPLORE_PY = {
 
 def explore_shards(prop, cfg, tier, drv, seed=1, runner=None, nsplit=16):
     """returns (shard texts, [dict(capacity, keys, states, transitions, closed)])"""
-    scopes = EXPLORE[tier]
+    scopes = EXPLORE[tier] + (EXPLORE_QUICK_EXTRA.get(prop, []) if tier == "quick" else [])
     if prop in ("C07", "C08", "C09") and runner is not None and getattr(runner, "driver", None):
         drv, scopes = runner.driver, EXPLORE_PY[tier]
     elif cfg.get("target") == "arena":
